@@ -27,6 +27,8 @@ pub(crate) mod c16;
 pub(crate) mod c09;
 #[path = "/verif/harness/d/c05.rs"]
 pub(crate) mod c05;
+#[path = "/verif/harness/d/c11.rs"]
+pub(crate) mod c11;
 
 use vcore::{BatchPlan, Check};
 
@@ -79,6 +81,7 @@ pub(crate) fn verif_main(args: &[String]) -> i32 {
     let c16 = c16::Admission;
     let c09 = c09::ExportRules;
     let c05 = c05::MalformedUpdates;
-    let checks: Vec<&dyn Check> = vec![&c08, &c01, &c10, &c13, &c07, &c16, &c09, &c05];
+    let c11 = c11::RestartingSpeaker;
+    let checks: Vec<&dyn Check> = vec![&c08, &c01, &c10, &c13, &c07, &c16, &c09, &c05, &c11];
     vcore::main_with(&checks, &plan, args)
 }
